@@ -43,7 +43,7 @@ def sizesFn (l : List Nat) (k : Nat) : Nat :=
   | none => 1000000000
 
 /-- `rx <kind> F <frame>=<verdict>* S <size>* E <ev>* => <tok>*` ↦ `M <model toks> | H <0/1>` -/
-def handle (ts : List String) : String :=
+def handle (bounds : Bool) (ts : List String) : String :=
   let (_, r1) := splitAt "F" ts
   let (fs, r2) := splitAt "S" r1
   let (ss, r3) := splitAt "E" r2
@@ -59,6 +59,7 @@ def handle (ts : List String) : String :=
   | some evs =>
     let outs := run consts (sizesFn sizes) evs (init consts) net0
     let m := " ".intercalate (outs.map (tokOfOut tbl))
-    let h := SpecRx.holds frames evs (outsOfToks tbl obs frames)
+    let h := if bounds then SpecRx.holdsBounds consts.max frames evs (outsOfToks tbl obs frames)
+             else SpecRx.holds frames evs (outsOfToks tbl obs frames)
     "M " ++ m ++ " | H " ++ (if h then "1" else "0")
 end DriverRx
